@@ -326,8 +326,46 @@ type SubOut struct{ V int }
 	return &World{Name: "T10", Module: DefaultModule, Files: map[string]string{"t10/c.go": src}, Patterns: []string{"./t10"}, Tags: []string{"T10", "multi-defect"}}
 }
 
+// T11: packages of equal name in different directories converted in both directions, and
+// several instantiations of one generic type: the generated sub-methods collide on their base
+// name (<src>To<Target>) and get numeric suffixes in the order they are built — a successful
+// world whose bytes depend on build order.
+func T11(rng *rand.Rand) *World {
+	nested := names(rng, "N", 2+rng.IntN(2))
+	var fields, types string
+	for _, n := range nested {
+		fields += fmt.Sprintf("\t%s %s\n", n, n)
+		types += fmt.Sprintf("type %s struct{ V int; W []string }\n", n)
+	}
+	model := func(dir string) string {
+		return "package model\n\ntype Customer struct {\n\tName string\n" + fields + "\tOrders []Order\n}\ntype Order struct{ ID int; Tags map[string]string }\n" + types +
+			"type Page[T any] struct{ Items []T; Next *Page[T] }\n"
+	}
+	conv := fmt.Sprintf(`package conv
+
+import (
+	api "%[1]s/t11/api/model"
+	db "%[1]s/t11/db/model"
+)
+
+// goverter:converter
+type Converter interface {
+	ToAPI(source db.Customer) api.Customer
+	ToDB(source api.Customer) db.Customer
+	ToAPIs(source []db.Customer) []api.Customer
+	PageToAPI(source db.Page[db.Order]) api.Page[api.Order]
+	PageToDB(source api.Page[api.Order]) db.Page[db.Order]
+	PageCustomers(source db.Page[db.Customer]) api.Page[api.Customer]
+}
+`, DefaultModule)
+	return &World{Name: "T11", Module: DefaultModule, Files: map[string]string{
+		"go.mod": "module " + DefaultModule + "\ngo 1.21\n",
+		"t11/api/model/m.go": model("api"), "t11/db/model/m.go": model("db"), "t11/conv/c.go": conv},
+		Patterns: []string{"./t11/conv"}, Tags: []string{"T11", "healthy", "name-collision"}}
+}
+
 // Templates lists all template constructors.
-var Templates = []func(*rand.Rand) *World{T1, T2, T3, T4, T5, T6, T7, T8, T9, T10}
+var Templates = []func(*rand.Rand) *World{T1, T2, T3, T4, T5, T6, T7, T8, T9, T10, T11}
 
 // Combine merges several worlds into one module by prefixing their package directories.
 // Import paths inside the sources are rewritten accordingly.
